@@ -145,6 +145,22 @@ theorem hostname_field_exact (O : Oracles) (hO : FormatOracles O) (lo hi : Optio
   rw [(string_field_exact O lo hi (some hostNameToken) v).1 w]
   simp only [patOk, (hO _).2, hostNameOk_iff]
 
+/-- what an IPV4 field stores consists of ASCII digits and dots only and has 7..15 characters: no trailing newline, no
+    digit outside ASCII (the two ways in which the library's own expression is laxer: findings `…:ipv4:trailing-newline`,
+    `…:ipv4:non-ascii-digit`) -/
+theorem ipv4_field_chars (O : Oracles) (hO : FormatOracles O) (lo hi : Option Nat) (v w : PyVal)
+    (h : validate O (.string lo hi (some ipv4Token)) v = .ok w) :
+    ∃ s, w = .str s ∧ (∀ c ∈ s.toList, isAsciiDigit c = true ∨ c = '.') ∧ 7 ≤ s.toList.length ∧ s.toList.length ≤ 15 := by
+  rcases (ipv4_field_exact O hO lo hi v w).1 h with ⟨s, _, hw, _, _, hs⟩
+  exact ⟨s, hw, IsIPv4.chars s hs, IsIPv4.length s hs⟩
+
+/-- what a HostName field stores consists of ASCII letters, ASCII digits, hyphens and dots only -/
+theorem hostname_field_chars (O : Oracles) (hO : FormatOracles O) (lo hi : Option Nat) (v w : PyVal)
+    (h : validate O (.string lo hi (some hostNameToken)) v = .ok w) :
+    ∃ s, w = .str s ∧ ∀ c ∈ s.toList, isAsciiAlnum c = true ∨ c = '-' ∨ c = '.' := by
+  rcases (hostname_field_exact O hO lo hi v w).1 h with ⟨s, _, hw, _, _, hs⟩
+  exact ⟨s, hw, IsHostName.chars s hs⟩
+
 /-- **SizedString**(maxlen = m, maxLength = hi) is the `string` declaration with the tighter bound: whatever it stores
     is a `str` no longer than `m` and no longer than `hi` -/
 theorem sized_string_bound (O : Oracles) (lo : Option Nat) (hi m : Nat) (pat : Option String) (v w : PyVal)
